@@ -444,6 +444,9 @@ def r13_compound_assign(text):
     def repl(m):
         nonlocal cnt
         cnt += 1
+        if m.group(3) in ('&', '|') and re.search(r'==|!=|<=|>=|<|>|&&|\|\||!\w|\btrue\b|\bfalse\b|\bis_\w+\(|\bhas_\w+\(', m.group(4)):
+            # `b &= e` / `b |= e` on bools (Verus has no non-short-circuit bool operators): e is evaluated first, exactly once, as in the original
+            return f'{m.group(1)}{{ let rhs_bool = ({m.group(4)}); {m.group(2)} = {m.group(2)} {m.group(3) * 2} rhs_bool; }}'
         return f'{m.group(1)}{m.group(2)} = {m.group(2)} {m.group(3)} ({m.group(4)});'
     text = re.sub(r'(?m)^(\s*)(\*?[\w\.]+(?:\[[^\]\n]*\])?) ([-+*/|&]|<<|>>)= ([^;\n]+);', repl, text)
     return text, cnt
@@ -766,7 +769,16 @@ def r12_filter_count(text):
         tail = ('\n        {\n            let %s = &%s[%s_nx]; %s_nx += 1;\n            if %s { %s_n += 1; }\n        }\n        let %s = %s_n;'
                 % (c, e, c, c, cond, x, x, x))
         return head + dflt + tail
-    return pat.subn(sub, text)
+    text, k = pat.subn(sub, text)
+    # the same chain in EXPRESSION position (a tail expression, an argument, a cast operand) -> a block expression with the same loop
+    pat2 = re.compile(r'(?<![\w\.])(\w+(?:\.\w+)*)\s*\.iter\(\)\s*\.filter\(\|(\w+)\| ((?:[^()]|\([^()]*\))*?)\)\s*\.count\(\)', re.S)
+    def sub2(m):
+        e, c, cond = m.group(1), m.group(2), m.group(3).strip()
+        dflt = '/*@LOOPSPEC:            invariant %s_nx <= %s.len(), %s_cnt <= %s_nx,\n            decreases %s.len() - %s_nx,*/' % (c, e, c, c, e, c)
+        return ('({ let mut %s_cnt: usize = 0;\n        let mut %s_nx: usize = 0;\n        while %s_nx < %s.len() %s\n        {\n            let %s = &%s[%s_nx]; %s_nx += 1;\n'
+                '            if %s { %s_cnt += 1; }\n        }\n        %s_cnt })' % (c, c, c, e, dflt, c, e, c, c, cond, c, c))
+    text, k2 = pat2.subn(sub2, text)
+    return text, k + k2
 
 
 def r12_position(text):
